@@ -6,7 +6,7 @@ import ast
 from dataclasses import dataclass, field
 from typing import Any, Dict, Iterable, List, Optional, Set, Tuple
 
-from .cfg import dominating_conditions, flatten_conditions
+from .cfg import always_exits,  dominating_conditions, flatten_conditions
 from .core import AnalysisError, dotted, enclosing, norm, parent, walk_ordered
 from .model import FuncInfo, Model
 
@@ -138,8 +138,10 @@ class Reach:
             if d is not None:
                 defaults[kw.arg] = d
         given: Dict[str, ast.AST] = {}
+        if a.vararg is not None and not any(isinstance(x, ast.Starred) for x in call.args) and len(call.args) <= len(names):
+            out[a.vararg.arg] = ()  # no surplus positional argument at this call: *args is the empty tuple
         if any(isinstance(x, ast.Starred) for x in call.args) or any(k.arg is None for k in call.keywords):
-            return {}
+            return out
         for n, v in zip(names, call.args):
             given[n] = v
         for k in call.keywords:
@@ -256,17 +258,24 @@ class Reach:
         constant parameters, nested function bodies excluded (lambdas included)."""
         out: List[ast.AST] = []
 
+        def visit_block(stmts):
+            # statements after a branch that is always taken (by the constant parameters) and always exits are dead
+            for s in stmts:
+                visit(s)
+                if isinstance(s, ast.If):
+                    d = self.decide(fi, s.test)
+                    if (d is True and always_exits(s.body)) or (d is False and always_exits(s.orelse)):
+                        break
+
         def visit(n: ast.AST):
             if isinstance(n, ast.If):
                 d = self.decide(fi, n.test)
                 out.append(n)
                 visit_expr(n.test)
                 if d is not False:
-                    for s in n.body:
-                        visit(s)
+                    visit_block(n.body)
                 if d is not True:
-                    for s in n.orelse:
-                        visit(s)
+                    visit_block(n.orelse)
                 return
             if isinstance(n, (ast.FunctionDef, ast.AsyncFunctionDef, ast.ClassDef)) and n is not fi.node:
                 return
@@ -279,8 +288,7 @@ class Reach:
             for ch in ast.iter_child_nodes(n):
                 visit_expr(ch)
 
-        for s in fi.node.body:
-            visit(s)
+        visit_block(fi.node.body)
         return out
 
     def live_calls(self, fi: FuncInfo) -> List[ast.Call]:
@@ -379,7 +387,7 @@ def _decide(test: ast.AST, consts: Dict[str, Any], assigned: Set[str]) -> Option
             return True
         return False if all(d is False for d in ds) else None
     v = val(test)
-    if v is not UNKNOWN and isinstance(v, (bool, int, str, type(None))):
+    if v is not UNKNOWN and isinstance(v, (bool, int, str, type(None), tuple)):
         return bool(v)
     return None
 
